@@ -190,6 +190,13 @@ func (g *gen) nonKey() []*field {
 func (g *gen) seedKey() lval { return g.m.rows[g.r.Intn(len(g.m.rows))].key }
 
 func (g *gen) newKey(i int) lval {
+	if g.m.composite() {
+		// a new key shares one part with existing rows
+		if g.r.Bool() {
+			return lval{v: []lval{{v: int64(1 + i%3)}, {v: fmt.Sprintf("n%d", i+1)}}}
+		}
+		return lval{v: []lval{{v: int64(20 + i)}, {v: "a"}}}
+	}
 	if g.m.pk.k.class == "string" {
 		return lval{v: fmt.Sprintf("n%d", i+1)}
 	}
@@ -231,12 +238,11 @@ func (g *gen) structVal(f *field) lval {
 func (g *gen) structRec(key lval) *rec {
 	rc := &rec{vals: map[int]mval{}}
 	for _, f := range g.m.fields {
-		if f.pk {
-			rc.vals[f.idx] = mval{form: "typed", lv: key}
-			continue
+		if !f.pk {
+			rc.vals[f.idx] = mval{form: "typed", lv: g.structVal(f)}
 		}
-		rc.vals[f.idx] = mval{form: "typed", lv: g.structVal(f)}
 	}
+	g.m.setKey(rc, key)
 	return rc
 }
 
@@ -383,11 +389,15 @@ func (g *gen) cond(must *lval) cond {
 	}
 	pkc := m.pk.col
 	form := r.Intn(8)
+
 	if (form == 3 || form == 4 || form == 7) && len(dataF) == 0 {
 		form = 0
 	}
 	if form == 2 && m.pk.k.class == "string" {
 		form = 1
+	}
+	if m.composite() && form != 3 && form != 4 && form != 7 {
+		return g.compositeCond(rows, form)
 	}
 	mk := func(q string, gargs []interface{}, rsql string, rargs []interface{}) cond {
 		var al []string
@@ -442,6 +452,46 @@ func (g *gen) cond(must *lval) cond {
 		v := rows[0].cells[f.idx].v
 		mp := map[string]interface{}{f.col: v}
 		return cond{gq: mp, rsql: f.col + " = ?", rargs: []interface{}{v}, desc: "Where(" + argLit(mp) + ")"}
+	}
+}
+
+// compositeCond: conditions over the parts of a two-column key (k1 int64, k2 string).
+func (g *gen) compositeCond(rows []seedRow, form int) cond {
+	m := g.m
+	p0 := m.keyParts(rows[0].key)
+	mk := func(q string, gargs []interface{}, rsql string, rargs []interface{}) cond {
+		var al []string
+		for _, a := range gargs {
+			al = append(al, argLit(a))
+		}
+		return cond{gq: q, gargs: gargs, rsql: rsql, rargs: rargs, desc: fmt.Sprintf("Where(%q, %s)", q, strings.Join(al, ", "))}
+	}
+	switch form {
+	case 0:
+		a := []interface{}{p0[0].v, p0[1].v}
+		return mk("k1 = ? AND k2 = ?", a, "k1 = ? AND k2 = ?", a)
+	case 1:
+		a := []interface{}{p0[0].v}
+		return mk("k1 = ?", a, "k1 = ?", a)
+	case 2:
+		var t []string
+		var flat []interface{}
+		seen := map[string]bool{}
+		for _, rw := range rows {
+			k2 := m.keyParts(rw.key)[1].v.(string)
+			if !seen[k2] && len(t) < 2 {
+				seen[k2] = true
+				t = append(t, k2)
+				flat = append(flat, k2)
+			}
+		}
+		return mk("k2 IN ?", []interface{}{t}, "k2 IN "+inList(len(flat)), flat)
+	case 5:
+		mp := map[string]interface{}{"k1": p0[0].v, "k2": p0[1].v}
+		return cond{gq: mp, rsql: "k1 = ? AND k2 = ?", rargs: []interface{}{p0[0].v, p0[1].v}, desc: "Where(" + argLit(mp) + ")"}
+	default:
+		mp := map[string]interface{}{"k2": p0[1].v}
+		return cond{gq: mp, rsql: "k2 = ?", rargs: []interface{}{p0[1].v}, desc: "Where(" + argLit(mp) + ")"}
 	}
 }
 
@@ -605,9 +655,11 @@ func (g *gen) ensureColumns(o *op) {
 		return
 	}
 	for i, rc := range o.recs {
-		rc.vals[g.m.pk.idx] = mval{form: "typed", lv: g.newKey(i)}
+		g.m.setKey(rc, g.newKey(i))
 		if o.isMap {
-			rc.order = append([]int{g.m.pk.idx}, rc.order...)
+			for j := len(g.m.pks) - 1; j >= 0; j-- {
+				rc.order = append([]int{g.m.pks[j].idx}, rc.order...)
+			}
 		}
 	}
 }
@@ -644,18 +696,20 @@ func (g *gen) genOp(kind string) *op {
 			o.batch = r.Range(1, 3)
 			o.family = "batch-create"
 		}
-		auto := m.pk.k.class != "string" && r.Chance(1, 3)
+		auto := !m.composite() && m.pk.k.class != "string" && r.Chance(1, 3)
 		for i := 0; i < n; i++ {
 			k := g.newKey(i)
 			if auto {
-				k = lval{v: int64(0)}
+				k = m.zeroKey()
 			}
 			o.recs = append(o.recs, g.structRec(k))
 		}
 		o.elemPtr = r.Chance(1, 3)
 		g.selOmit(o, modesCreate, nonzeroFields(o.recs[0]))
 		if (o.selMode == "sel" || o.selMode == "sel+omit") && !auto {
-			o.sel = append(o.sel, nameRef{fi: m.pk.idx, byCol: r.Bool()})
+			for _, f := range m.pks {
+				o.sel = append(o.sel, nameRef{fi: f.idx, byCol: r.Bool()})
+			}
 		}
 		g.ensureColumns(o)
 	case "create-map", "create-maps":
@@ -666,7 +720,7 @@ func (g *gen) genOp(kind string) *op {
 		if kind == "create-maps" {
 			n = r.Range(2, 3)
 		}
-		auto := m.pk.k.class != "string" && r.Chance(1, 3)
+		auto := !m.composite() && m.pk.k.class != "string" && r.Chance(1, 3)
 		var cands []*field
 		for _, f := range g.nonKey() {
 			if f.autoUpd == "" && f.autoCre == "" && !f.ignored {
@@ -676,15 +730,19 @@ func (g *gen) genOp(kind string) *op {
 		for i := 0; i < n; i++ {
 			rc := g.mapRec(o, "create", cands)
 			if !auto {
-				rc.vals[m.pk.idx] = mval{form: "typed", lv: g.newKey(i)}
-				rc.order = append([]int{m.pk.idx}, rc.order...)
-				rc.byCol[m.pk.idx] = r.Bool()
+				m.setKey(rc, g.newKey(i))
+				for j := len(m.pks) - 1; j >= 0; j-- {
+					rc.order = append([]int{m.pks[j].idx}, rc.order...)
+					rc.byCol[m.pks[j].idx] = r.Bool()
+				}
 			}
 			o.recs = append(o.recs, rc)
 		}
 		g.selOmit(o, modesCreate, keysOf(o.recs[0]))
 		if (o.selMode == "sel" || o.selMode == "sel+omit") && !auto {
-			o.sel = append(o.sel, nameRef{fi: m.pk.idx, byCol: r.Bool()})
+			for _, f := range m.pks {
+				o.sel = append(o.sel, nameRef{fi: f.idx, byCol: r.Bool()})
+			}
 		}
 		g.ensureColumns(o)
 	case "upsert-cols", "upsert-assign", "upsert-all", "upsert-nothing":
@@ -766,8 +824,8 @@ func (g *gen) genOp(kind string) *op {
 		k := g.seedKey()
 		if kind == "save-new" {
 			k = g.newKey(0)
-			if m.pk.k.class != "string" && r.Chance(1, 3) {
-				k = lval{v: int64(0)}
+			if !m.composite() && m.pk.k.class != "string" && r.Chance(1, 3) {
+				k = m.zeroKey()
 			}
 		}
 		o.modelKeys = []lval{k}
@@ -803,16 +861,13 @@ func (g *gen) genOp(kind string) *op {
 			o.family = "updatecolumns"
 			o.hooks = false
 		}
-		o.recs = []*rec{g.structRec(lval{v: int64(0)})}
-		if m.pk.k.class == "string" {
-			o.recs[0].vals[m.pk.idx] = mval{form: "typed", lv: lval{v: ""}}
-		}
+		o.recs = []*rec{g.structRec(m.zeroKey())}
 		g.selOmit(o, modesUpdate, nonzeroFields(o.recs[0]))
 		// "*" with a value that is not the model writes the key column too: the value carries
 		// the key of the single row it addresses
 		g.target(o, true, hasStar(o.sel))
 		if o.valueIsModel || hasStar(o.sel) || (len(o.modelKeys) == 1 && !o.modelSlice && o.tform != "model-missing-key" && r.Chance(1, 4)) {
-			o.recs[0].vals[m.pk.idx] = mval{form: "typed", lv: o.modelKeys[0]}
+			m.setKey(o.recs[0], o.modelKeys[0])
 		}
 		o.valPtr = o.valueIsModel || r.Bool()
 	case "updates-map", "updatecolumns-map":
@@ -852,8 +907,10 @@ func (g *gen) genOp(kind string) *op {
 
 func (m *model) keyStruct(k lval) (reflect.Value, string) {
 	vals := map[int]lval{}
-	if !isGoZero(m.pk.k, k) {
-		vals[m.pk.idx] = k
+	for i, part := range m.keyParts(k) {
+		if !isGoZero(m.pks[i].k, part) {
+			vals[m.pks[i].idx] = part
+		}
 	}
 	return m.newStruct(vals), "&" + m.structLit(vals)
 }
@@ -910,7 +967,9 @@ func exec(db *gorm.DB, m *model, o *op) (string, *gorm.DB) {
 		case o.modelSlice:
 			var rs []*rec
 			for _, k := range o.modelKeys {
-				rs = append(rs, &rec{vals: map[int]mval{m.pk.idx: {form: "typed", lv: k}}})
+				rc := &rec{vals: map[int]mval{}}
+				m.setKey(rc, k)
+				rs = append(rs, rc)
 			}
 			v, lit := m.sliceOf(rs, false)
 			tx = tx.Model(v)
@@ -953,8 +1012,13 @@ func exec(db *gorm.DB, m *model, o *op) (string, *gorm.DB) {
 		tx = tx.Omit(ns...)
 		desc += ".Omit(" + quoteAll(ns) + ")"
 	}
-	pkCols := []clause.Column{{Name: m.pk.col}}
-	pkLit := fmt.Sprintf("Columns: []clause.Column{{Name: %q}}", m.pk.col)
+	var pkCols []clause.Column
+	var pkNames []string
+	for _, f := range m.pks {
+		pkCols = append(pkCols, clause.Column{Name: f.col})
+		pkNames = append(pkNames, fmt.Sprintf("{Name: %q}", f.col))
+	}
+	pkLit := "Columns: []clause.Column{" + strings.Join(pkNames, ", ") + "}"
 	switch o.kind {
 	case "upsert-cols":
 		var cs []string
